@@ -35,6 +35,17 @@ CLAIMED = {
         "indent only required to be spaces; hooks are thin re-exports.",
         "DESIGN.md section 4, C20",
     ),
+    "C12": (
+        "proptest random search over generated command trees with the full help surface, no-panic / bounded-padding / section-membership / hidden-absence oracles, metamorphic level markers for help dispatch, shrinking (tape + serialised case)",
+        "Generated trees (all hide modes, short-only/Count flags, custom headings, next-line help, flatten, templates, possible values, "
+        "defaults, env) are rendered short and long at every level and at three widths in 0..200, plus usage and the DisplayHelp error for "
+        "--help/-h after every subcommand path. Violations: any panic, padding runs beyond a linear bound, a visible argument/subcommand "
+        "missing from the section of its heading, a hidden subcommand / optional hidden argument / hidden possible value appearing, help "
+        "of the wrong level. Exploration with shrinking.",
+        "term_width always explicit; section membership judged for the default non-flattened template only; texts from a plain-word pool; "
+        "hidden names equal to a visible token of the same help are skipped and counted.",
+        "DESIGN.md section 4, C12",
+    ),
     "C13": (
         "bounded-exhaustive enumeration + proptest random search over a choice tape, byte-level reference oracle and short-iterator model",
         "Every byte string up to length 6 (thorough 7) over a 12-byte boundary alphabet, plus random strings up to 64 bytes with random "
